@@ -11,6 +11,7 @@ from __future__ import annotations
 import ast
 
 from ..cases import AV, CaseEval, Undecided
+from ..normalize import flat
 from ..dataflow import Inliner, local_defs, param_names
 from ..loader import AnalysisError, FuncInfo, Program, calls_in, dotted, norm, walk_no_nested
 from ..report import Ledger
@@ -140,9 +141,34 @@ def run(prog: Program, L: Ledger) -> None:
     L.assume("numpy Generator(PCG64(seed)) is a deterministic function of seed and of the sequence of calls made on it")
 
     driver = prog.cls("Driver")
-    init = driver.methods.get("__init__")
+    init0 = driver.methods.get("__init__")
+    init = flat(prog, init0, driver) if init0 is not None else None
     if init is None:
         raise AnalysisError("Driver.__init__ not found")
+    # private helpers of the constructor (e.g. a static `_build_generator`) are analysed as part of it — but only when
+    # nothing else calls them, otherwise they are a second place where generators are made
+    init_helpers = set(getattr(init, "inlined", []))
+    changed = True
+    while changed:
+        changed = False
+        for hq in sorted(init_helpers):
+            for fi_ in prog.iter_functions():
+                if fi_ is init0 or fi_.qualname in init_helpers or fi_.qualname == hq:
+                    continue
+                if any((isinstance(c.func, ast.Attribute) and c.func.attr == hq.split(".")[-1]) or (isinstance(c.func, ast.Name) and c.func.id == hq.split(".")[-1]) for c in calls_in(fi_.node)):
+                    init_helpers.discard(hq)
+                    changed = True
+                    break
+
+    def all_functions():
+        for fi_ in prog.iter_functions():
+            if fi_ is init0:
+                yield init
+            elif fi_.qualname in init_helpers:
+                continue
+            else:
+                yield fi_
+
 
     # ---------------------------------------------------------------- G1
     n_refs = 0
@@ -176,7 +202,7 @@ def run(prog: Program, L: Ledger) -> None:
     n_ctor = 0
     seed_value_expr = None
     rng_assign = None
-    for fi in prog.iter_functions():
+    for fi in all_functions():
         for call in calls_in(fi.node):
             d = dotted(call.func)
             if not d:
@@ -215,6 +241,8 @@ def run(prog: Program, L: Ledger) -> None:
     rng_assign = rng_assigns[0]
     # shape of the generator construction: Generator(BitGen(<arg>))
     rv = rng_assign.value
+    if isinstance(rv, ast.Name):
+        rv = Inliner(init.node).inline(rv)
     bitgen_arg = None
     if isinstance(rv, ast.Call) and prog.resolve_dotted(init.module, dotted(rv.func) or "").endswith("numpy.random.Generator") and len(rv.args) == 1:
         inner = rv.args[0]
@@ -270,6 +298,17 @@ def run(prog: Program, L: Ledger) -> None:
     # unseeded bit generators: allowed only inside the _seed fallback
     inl_seed = norm(Inliner(init.node).inline(seed_value_expr))
     seed_names = {n.id for n in ast.walk(seed_value_expr) if isinstance(n, ast.Name)}
+    grew = True
+    while grew:  # locals that (transitively) feed self._seed
+        grew = False
+        for st in walk_no_nested(init.node):
+            if isinstance(st, (ast.Assign, ast.AnnAssign)) and st.value is not None:
+                tg = st.targets if isinstance(st, ast.Assign) else [st.target]
+                if any(isinstance(t, ast.Name) and t.id in seed_names for t in tg):
+                    more = {n.id for n in ast.walk(st.value) if isinstance(n, ast.Name)} - seed_names
+                    if more:
+                        seed_names |= more
+                        grew = True
     for st in walk_no_nested(init.node):
         if isinstance(st, (ast.Assign, ast.AnnAssign)) and st.value is not None and st is not rng_assign:
             tg = st.targets if isinstance(st, ast.Assign) else [st.target]
@@ -277,7 +316,7 @@ def run(prog: Program, L: Ledger) -> None:
                 # statements feeding self._seed: their text counts as part of the fallback (the case
                 # analysis above already showed they do not run when a seed is given)
                 inl_seed += " ; " + norm(st.value)
-    for fi in prog.iter_functions():
+    for fi in all_functions():
         for call in calls_in(fi.node):
             d = dotted(call.func)
             if not d:
@@ -299,7 +338,7 @@ def run(prog: Program, L: Ledger) -> None:
     # ---------------------------------------------------------------- G2
     # (a) bindings of .rng / ._rng
     rng_bind = []
-    for fi in prog.iter_functions():
+    for fi in all_functions():
         for st in walk_no_nested(fi.node):
             tgts = []
             if isinstance(st, ast.Assign):
@@ -331,10 +370,14 @@ def run(prog: Program, L: Ledger) -> None:
     # (b) every context construction passes self._rng
     n_ctx_ctor = 0
     ctx_classes = set(prog.subclasses(ctx_base))
-    for fi in prog.iter_functions():
+    for fi in all_functions():
+        cinl = None
         for call in calls_in(fi.node):
             target = None
             d = dotted(call.func)
+            if isinstance(call.func, ast.Name) and call.func.id not in fi.module.bindings:
+                cinl = cinl or Inliner(fi.node)
+                d = dotted(cinl.inline(call.func)) or d  # a local standing for the context class
             if d == "self.default_context":
                 target = "default_context"
             elif d:
@@ -364,7 +407,7 @@ def run(prog: Program, L: Ledger) -> None:
 
     # (c) stochastic call sites
     n_sites = 0
-    for fi in prog.iter_functions():
+    for fi in all_functions():
         inl = Inliner(fi.node)
         for call in calls_in(fi.node):
             if not isinstance(call.func, ast.Attribute):
@@ -413,7 +456,7 @@ def run(prog: Program, L: Ledger) -> None:
     STOCH = {"random", "rvs", "rand", "randn", "randint", "random_sample", "sample", "shuffle", "permutation", "choice",
              "uniform", "normal", "standard_normal", "integers", "rattle", "random_rotation", "random_state"}
     n_ext = 0
-    for fi in prog.iter_functions():
+    for fi in all_functions():
         inl = Inliner(fi.node)
         for call in calls_in(fi.node):
             if not isinstance(call.func, ast.Attribute) or call.func.attr not in STOCH:
@@ -448,7 +491,7 @@ def run(prog: Program, L: Ledger) -> None:
 
     # ---------------------------------------------------------------- G4
     n_g4 = 0
-    for fi in prog.iter_functions():
+    for fi in all_functions():
         for call in calls_in(fi.node):
             d = dotted(call.func)
             if not d:
